@@ -40,6 +40,7 @@ type Engine struct {
 	loopInfo map[*ssa.Function]*loopInfo
 	fnIDs    map[*ssa.Function]int
 	axiomsLoaded bool
+	refTags  map[string]int
 }
 
 func relName(fn *ssa.Function) string {
@@ -121,7 +122,7 @@ func LoadEngine(repo string, patterns []string, trustedDir string) (*Engine, err
 		fnByKey: map[string]*ssa.Function{}, tinfo: map[string]*typeInfo{},
 		sortSet: map[string]bool{}, gdeclSet: map[string]bool{}, typeTags: map[string]int{},
 		strLits: map[string]string{}, globalRef: map[*ssa.Global]int{}, ghostVars: map[string]string{},
-		loopInfo: map[*ssa.Function]*loopInfo{}, fnIDs: map[*ssa.Function]int{},
+		loopInfo: map[*ssa.Function]*loopInfo{}, fnIDs: map[*ssa.Function]int{}, refTags: map[string]int{},
 	}
 	for fn := range ssautil.AllFunctions(prog) {
 		if fn == nil {
@@ -169,6 +170,12 @@ func LoadEngine(repo string, patterns []string, trustedDir string) (*Engine, err
 		if err := e.cs.LoadSpecDir(trustedDir); err != nil {
 			return nil, err
 		}
+	}
+	for k, v := range e.cs.GhostVars {
+		e.ghostVars[k] = v
+	}
+	if err := e.resolveFuncTypeKeys(); err != nil {
+		return nil, err
 	}
 	if err := e.cs.ResolveLikes(); err != nil {
 		return nil, err
@@ -254,6 +261,7 @@ func (e *Engine) preludeFull() string {
 		fmt.Fprintf(&b, "(declare-sort %s 0)\n", s)
 	}
 	b.WriteString(`(declare-const str_empty Str)
+(declare-fun reftype (Int) Int)
 (declare-fun slen (Str) Int)
 (declare-fun sat (Str Int) Int)
 (declare-fun scat (Str Str) Str)
@@ -402,4 +410,57 @@ func (e *Engine) loopsOf(fn *ssa.Function) *loopInfo {
 	}
 	e.loopInfo[fn] = li
 	return li
+}
+
+// resolveFuncTypeKeys rewrites "functype::pkg.TypeName" contract keys (and like
+// references) to the canonical signature key of that named or alias function type.
+func (e *Engine) resolveFuncTypeKeys() error {
+	canon := func(k string, where string) (string, error) {
+		if !strings.HasPrefix(k, "functype::") || strings.Contains(k, "func(") {
+			return k, nil
+		}
+		name := strings.TrimPrefix(k, "functype::")
+		dot := strings.LastIndex(name, ".")
+		if dot < 0 {
+			return k, fmt.Errorf("%s: functype needs pkg.Type: %s", where, k)
+		}
+		pkgName, tname := name[:dot], name[dot+1:]
+		for _, p := range e.prog.AllPackages() {
+			if p.Pkg.Name() != pkgName || !isRepoPkg(p.Pkg) {
+				continue
+			}
+			if o := p.Pkg.Scope().Lookup(tname); o != nil {
+				if tn, ok := o.(*types.TypeName); ok {
+					if sig, ok := tn.Type().Underlying().(*types.Signature); ok {
+						return sigKey(sig), nil
+					}
+				}
+			}
+		}
+		return k, fmt.Errorf("%s: cannot resolve function type %s", where, name)
+	}
+	for i, k := range e.cs.Order {
+		nk, err := canon(k, e.cs.Funcs[k].Where)
+		if err != nil {
+			return err
+		}
+		if nk != k {
+			c := e.cs.Funcs[k]
+			delete(e.cs.Funcs, k)
+			c.Pkg, c.Name = "functype", strings.TrimPrefix(nk, "functype::")
+			e.cs.Funcs[nk] = c
+			e.cs.Order[i] = nk
+		}
+	}
+	for _, k := range e.cs.Order {
+		c := e.cs.Funcs[k]
+		for i, l := range c.Like {
+			nl, err := canon(l, c.Where)
+			if err != nil {
+				return err
+			}
+			c.Like[i] = nl
+		}
+	}
+	return nil
 }
